@@ -344,6 +344,37 @@ Proof.
     try contradiction; apply fin; assumption.
 Qed.
 
+(* ---------- Count and ListByStream: the read-only scan again ---------- *)
+
+Lemma rel_q_count st rt a b : RelB S st rt -> q_count A prefix st a b = q_count radapter prefix rt a b.
+Proof.
+  intros [HR Hrev]. unfold q_count. rewrite Hrev.
+  pose proof (rel_check_race S prefix (k_st A st) (k_st radapter rt) (k_rev radapter rt) HR) as Hc.
+  destruct (check_compact_race A prefix (k_st A st) (k_rev radapter rt) false) as [s1 e1].
+  destruct (check_compact_race radapter prefix (k_st radapter rt) (k_rev radapter rt) false) as [r1 e2]. cbn [snd] in Hc. subst e2.
+  destruct e1 as [[]|]; try reflexivity.
+  pose proof (rel_worker_run_false S (k_rev radapter rt) 0%nat _ _ (encode a 0) (encode b 0) HR) as Hw.
+  destruct (worker_run A false (k_rev radapter rt) 0 (k_st A st) (encode a 0) (encode b 0)) as [[s2 kvs]|];
+    destruct (worker_run radapter false (k_rev radapter rt) 0 (k_st radapter rt) (encode a 0) (encode b 0)) as [[r2 kvs']|];
+    try contradiction; [|reflexivity].
+  subst kvs'. reflexivity.
+Qed.
+
+Lemma rel_q_stream st rt a b rev : RelB S st rt -> q_stream A prefix st a b rev = q_stream radapter prefix rt a b rev.
+Proof.
+  intros [HR Hrev]. unfold q_stream. rewrite Hrev.
+  set (req := if rev =? 0 then k_rev radapter rt else rev).
+  pose proof (rel_check_race S prefix (k_st A st) (k_st radapter rt) req HR) as Hc.
+  destruct (check_compact_race A prefix (k_st A st) req false) as [s1 e1].
+  destruct (check_compact_race radapter prefix (k_st radapter rt) req false) as [r1 e2]. cbn [snd] in Hc. subst e2.
+  destruct e1 as [[]|]; try reflexivity.
+  pose proof (rel_worker_run_false S req 0%nat _ _ (encode a 0) (encode b 0) HR) as Hw.
+  destruct (worker_run A false req 0 (k_st A st) (encode a 0) (encode b 0)) as [[s2 kvs]|];
+    destruct (worker_run radapter false req 0 (k_st radapter rt) (encode a 0) (encode b 0)) as [[r2 kvs']|];
+    try contradiction; [|reflexivity].
+  subst kvs'. reflexivity.
+Qed.
+
 (* ---------- every sequential history that writes no empty value ---------- *)
 
 Definition hist_ok (q : req) : Prop :=
@@ -355,7 +386,7 @@ Definition hist_ok (q : req) : Prop :=
 Lemma rel_q_step_all st rt q : RelB S st rt -> hist_ok q ->
   exists st' rt' p ev, q_step A prefix st q = (st', p, ev) /\ q_step radapter prefix rt q = (rt', p, ev) /\ RelB S st' rt'.
 Proof.
-  intros HB Hq. destruct q as [k v|k v rev|k rev|k rev|a b rev limit|rev].
+  intros HB Hq. destruct q as [k v|k v rev|k rev|k rev|a b rev limit|rev|a b|a b rev].
   - apply (rel_q_step S Hplain prefix st rt (QCreate k v) HB Hq).
   - apply (rel_q_step S Hplain prefix st rt (QUpdate k v rev) HB Hq).
   - apply (rel_q_step S Hplain prefix st rt (QDelete k rev) HB I).
@@ -363,6 +394,8 @@ Proof.
   - apply (rel_q_step S Hplain prefix st rt (QList a b rev limit) HB I).
   - cbn [q_step]. destruct (rel_q_compact st rt rev HB) as (st' & rt' & p & E1 & E2 & HB').
     rewrite E1, E2. do 4 eexists. split; [reflexivity|]. split; [reflexivity|exact HB'].
+  - cbn [q_step]. rewrite (rel_q_count st rt a b HB). do 4 eexists. split; [reflexivity|]. split; [reflexivity|exact HB].
+  - cbn [q_step]. rewrite (rel_q_stream st rt a b rev HB). do 4 eexists. split; [reflexivity|]. split; [reflexivity|exact HB].
 Qed.
 
 Lemma rel_q_run_all qs : forall st rt, RelB S st rt -> Forall hist_ok qs ->
